@@ -114,3 +114,12 @@ impl<D: DataMut> LWESecretToMut for LWESecret<D> {
         }
     }
 }
+
+/// Verification hook (cargo feature `verif-hooks`): mutable access to the secret's coefficients so
+/// that a harness can install a concrete secret without going through a random source.
+#[cfg(feature = "verif-hooks")]
+impl<D: poulpy_hal::layouts::DataMut> LWESecret<D> {
+    pub fn verif_data_mut(&mut self) -> &mut ScalarZnx<D> {
+        &mut self.data
+    }
+}
